@@ -261,7 +261,9 @@ def fingerprint(root: Any, **kw: Any) -> str:
 # rebuild with substitution (identity-preserving where nothing changes)
 
 
-def rebuild(root: Any, fn: Callable[[Any, dict[str, Any]], Any | None]) -> Any:
+def rebuild(root: Any, fn: Callable[[Any, dict[str, Any]], Any | None],
+            enter: Callable[[Any], None] | None = None,
+            leave: Callable[[Any], None] | None = None) -> Any:
     """Bottom-up rebuild of a graph.  For every node, children are rebuilt
     first; then ``fn(node, new_field_values)`` may return a replacement (or
     None to use ``dataclasses.replace`` when any field changed)."""
@@ -288,11 +290,15 @@ def rebuild(root: Any, fn: Callable[[Any, dict[str, Any]], Any | None]) -> Any:
         keep.append(n)
         newvals: dict[str, Any] = {}
         changed = False
+        if enter is not None:
+            enter(n)
         for name, v in field_items(n):
             nv = rv(v)
             newvals[name] = nv
             if nv is not v:
                 changed = True
+        if leave is not None:
+            leave(n)
         res = fn(n, newvals)
         if res is None:
             if changed:
@@ -334,29 +340,68 @@ def hashcons(root: Any) -> Any:
     """A duplicate-free copy: structurally equal nodes become one object (decided by the
     reflective fingerprint, not by pytato's equality)."""
     fp = Fingerprinter(with_neq_tags=True)
-    canon: dict[str, Any] = {}
+    canon: dict[Any, Any] = {}
+    t = T()
+    # arrays of different function bodies live in different name spaces: equal nodes of two
+    # bodies stay two objects (pytato's mappers keep one array cache per body); function
+    # definitions themselves are shared globally
+    stack: list[int] = [0]
+
+    def enter(n: Any) -> None:
+        if isinstance(n, t["FunctionDefinition"]):
+            stack.append(id(n))
+
+    def leave(n: Any) -> None:
+        if isinstance(n, t["FunctionDefinition"]):
+            stack.pop()
 
     def fn(n: Any, vals: dict[str, Any]) -> Any:
         changed = any(vals[k] is not getattr(n, k) for k in vals)
         res = _construct_like(n, vals) if changed else n
-        key = fp.node(res)
+        ns = 0 if isinstance(n, t["FunctionDefinition"]) else stack[-1]
+        key = (ns, fp.node(res))
         if key in canon:
             return canon[key]
         canon[key] = res
         return res
-    return rebuild(root, fn)
+    return rebuild(root, fn, enter, leave)
 
 
 def duplicate_groups(root: Any, skip_kinds: tuple[str, ...] = ()) -> int:
-    """Number of structurally equal pairs of distinct node objects reachable from root."""
+    """Number of structurally equal pairs of distinct node objects -- within one name space
+    (the top level, or the body of one function definition; equal nodes of two bodies are
+    not duplicates of each other), function definitions among themselves."""
     fp = Fingerprinter(with_neq_tags=True)
-    seen: dict[str, int] = {}
+    t = T()
     dups = 0
-    for n in walk(root, skip_kinds=skip_kinds):
-        k = fp.node(n)
-        if k in seen:
+    funcs: dict[int, Any] = {}
+    pending = [("top", root)]
+    done: set[int] = set()
+    while pending:
+        _label, r = pending.pop()
+        seen: dict[str, int] = {}
+        roots = list(r.returns.values()) if isinstance(r, t["FunctionDefinition"]) else [r]
+        visited: set[int] = set()
+        for rr in roots:
+            for n in walk(rr, enter_functions=False, skip_kinds=skip_kinds):
+                if id(n) in visited:
+                    continue
+                visited.add(id(n))
+                k = fp.node(n)
+                if k in seen:
+                    dups += 1
+                seen[k] = seen.get(k, 0) + 1
+                f = getattr(n, "function", None)
+                if isinstance(f, t["FunctionDefinition"]) and id(f) not in done:
+                    done.add(id(f))
+                    funcs[id(f)] = f
+                    pending.append(("fn", f))
+    fseen: dict[str, int] = {}
+    for f in funcs.values():
+        k = fp.node(f)
+        if k in fseen:
             dups += 1
-        seen[k] = seen.get(k, 0) + 1
+        fseen[k] = 1
     return dups
 
 
